@@ -24,7 +24,8 @@ CONSTANTS NN,         \* number of nodes
           MaxE,       \* maximal number of edges
           StartVals,  \* admissible start values (0 = none)
           Defaults,   \* admissible default values (0 = none)
-          Bounds      \* admissible step bounds (-1 = Inf)
+          Bounds,     \* admissible step bounds (-1 = Inf)
+          FamIdx      \* which members of the transfer family (below) an edge may get
 
 \* (TLC configuration files cannot write negative numbers: the .cfg files substitute these)
 BoundsInf12 == {Inf, 1, 2}
@@ -74,7 +75,7 @@ MCInit ==
 \* choose the transfer of every edge; the machine is then in its initial state for that problem
 MCSetup ==
   /\ phase = "pick"
-  /\ \E t \in [1..Len(cfg.edges) -> 1..6] :
+  /\ \E t \in [1..Len(cfg.edges) -> FamIdx] :
        Reset([cfg EXCEPT !.tr = [e \in 1..Len(cfg.edges) |-> Fam[t[e]]]])
 
 \* (Next of Fixpoint.tla, spelled out so that TLC's coverage reports every action separately;
